@@ -1,21 +1,132 @@
 (* C10 — A multi-layer image flattens to the single-layer image.
    Property theorems only; proofs are in Proofs/LayersProofs.v. *)
 From Apko Require Import Base.Prelude Model.Tar Spec.TarSpec Model.Layers Spec.LayersSpec Proofs.LayersProofs.
+From Coq Require Import Sorting.Permutation.
 Open Scope string_scope. Open Scope list_scope.
 
-(* for every package list, every budget and every iteration order of the Go
-   maps: a successful grouping has at most max(budget, 1) groups (so at most
-   [budget] for budget >= 1, and one group for budget 0: "even if budget == 0,
-   we want 1 group"), and the budget was not negative *)
+(* for every package list, EVERY budget (negative ones included) and every
+   iteration order of the Go maps: a successful grouping has at most
+   max(budget, 1) groups — at most [budget] for budget >= 1, and one group for
+   budget 0 ("even if budget == 0, we want 1 group") *)
 Theorem c10_group_count : forall rep_name rep_sat o3 o4 pkgs budget gs,
   group_with rep_name rep_sat o3 o4 pkgs budget = Ok gs ->
-  (0 <= budget)%Z /\ (Z.of_nat (List.length gs) <= Z.max budget 1)%Z.
+  (Z.of_nat (List.length gs) <= Z.max budget 1)%Z.
 Proof. exact group_with_count. Qed.
 Print Assumptions c10_group_count.
 
-(* a negative budget never yields groups: make([]*group, 0, budget) panics
-   (unless the merge loop failed first) — reported under C15 *)
-Theorem c10_negative_budget_no_groups : forall rep_name rep_sat o3 o4 pkgs budget,
-  (budget < 0)%Z -> forall gs, group_with rep_name rep_sat o3 o4 pkgs budget <> Ok gs.
+(* After fix d47e591 (the slice is no longer sized by the budget; it used to be
+   make([]*group, 0, budget): panic for budget < 0, reported under C15) a
+   negative budget reaching groupByOriginAndSize yields exactly one merged
+   group; Context.buildLayers now rejects it before.  The replays
+   (budget -1, -7, 2^45+1) stay in the corpus: a panic is tagged
+   viol:grouping-panics. *)
+Theorem c10_negative_budget_one_group : forall rep_name rep_sat o3 o4 pkgs budget gs,
+  (budget < 0)%Z -> group_with rep_name rep_sat o3 o4 pkgs budget = Ok gs -> List.length gs = 1.
 Proof. exact group_with_negative. Qed.
-Print Assumptions c10_negative_budget_no_groups.
+Print Assumptions c10_negative_budget_one_group.
+
+(* c10_groups_partition — proved part: for every package list with distinct
+   names, every budget, EVERY iteration order of replaceMap (o3 is arbitrary,
+   not even required to be a permutation) and every order of
+   maps.Values(byOrigin) (o4 any permutation): each package is in exactly one
+   group (the groups' names are a permutation of the packages' names). Together
+   with c10_group_count this is the "partition within the budget" part.
+   NOT proved (checked on every run by the grouping validator on the real
+   function's output, 8 repetitions per input): same-origin and
+   satisfied-replaces packages share a group, and the result is the same list
+   for all iteration orders (c10_group_order_invariant). *)
+Theorem c10_groups_partition_partial : forall rep_name rep_sat pkgs o3 o4 budget gs,
+  NoDup (map p_name pkgs) -> (forall l, Permutation (o4 l) l) ->
+  group_with rep_name rep_sat o3 o4 pkgs budget = Ok gs ->
+  Permutation (List.concat (map names_of gs)) (map p_name pkgs).
+Proof. intros rn rs pkgs o3 o4 b gs Hn Ho H. exact (group_with_partition rn rs pkgs Hn o3 o4 b gs Ho H). Qed.
+Print Assumptions c10_groups_partition_partial.
+
+Example c10_groups_example :
+  let pk := [ {| p_name := "a"; p_version := "1"; p_origin := "oa"; p_size := 30; p_replaces := ["c"] |};
+              {| p_name := "b"; p_version := "1"; p_origin := "ob"; p_size := 20; p_replaces := [] |};
+              {| p_name := "c"; p_version := "1"; p_origin := "oc"; p_size := 10; p_replaces := [] |};
+              {| p_name := "d"; p_version := "1"; p_origin := "ob"; p_size := 1; p_replaces := [] |} ] in
+  match group (fun r => r) (fun _ _ => Ok true) pk 2 with
+  | Ok gs => map names_of gs = [["a"; "c"]; ["b"; "d"]]
+  | _ => False
+  end /\
+  match group (fun r => r) (fun _ _ => Ok true) pk 0 with
+  | Ok gs => map names_of gs = [["a"; "b"; "c"; "d"]]
+  | _ => False
+  end /\
+  match group (fun r => r) (fun _ _ => Ok true) pk (-1) with
+  | Ok gs => map names_of gs = [["a"; "b"; "c"; "d"]]
+  | _ => False
+  end.
+Proof. vm_compute. repeat split. Qed.
+
+(* c10_each_file_once: for every list of entries (in particular the walk of any
+   tree), every ownership map and all disjoint groups: if splitLayers does not
+   panic there is one layer per group plus the top layer, and the
+   non-directory entries of layer i are EXACTLY (same order, once, unchanged)
+   the non-directory entries whose owner's group is i (top layer = index
+   [length gs] for unowned entries); moreover every entry, directories
+   included, occurs unchanged in its own layer. *)
+Theorem c10_each_file_once : forall gs own es layers,
+  NoDup (List.concat gs) -> split_layers gs own es = Ok layers ->
+  List.length layers = S (List.length gs) /\
+  (forall i, i < List.length layers ->
+     filter nondir (nth i layers []) =
+     filter (fun e => nondir e && option_eqb Nat.eqb (layer_index gs own (e_path e)) (Some i)) es) /\
+  (forall i e, In e es -> layer_index gs own (e_path e) = Some i -> In e (nth i layers [])).
+Proof. exact split_each_file_once_spec. Qed.
+Print Assumptions c10_each_file_once.
+
+(* c10_flatten / c10_layers_wellformed — NOT proved in full.  Full statements:
+     c10_layers_wellformed : split_layers gs own (walk ev t) = Ok layers -> Forall LayerWellFormed layers
+     c10_flatten : (forall p, is a directory of t -> own p = None) -> split_layers gs own (walk ev t) = Ok layers ->
+                   exists a, apply_layers layers = Ok a /\ canon_forest a = canon_forest t   (t in the C06 envelope)
+   Both need the main-stack / layer-stack chain invariant over the walk (main
+   stack = ancestor chain of the last directory visited; every element of a
+   layer's stack already written to that layer), which I did not get to.
+   Proved instead (c10_flatten_partial): the ingredients that do not need the
+   chain invariant — every entry of the single-layer walk, directories
+   included, is written unchanged to its own layer, so with unowned directories
+   the true metadata of every directory is in the top layer, which is applied
+   last; non-directory entries are written nowhere else; what alignStacks adds
+   is a suffix of the main stack (directories only, with the file's mtime).
+   The equation flatten = single layer itself is COMPUTED by the reference
+   extractor on every emitted layer set in the split stage (validator
+   layers_tags), for the implementation's real output. *)
+Theorem c10_flatten_partial : forall gs own es layers,
+  NoDup (List.concat gs) -> split_layers gs own es = Ok layers ->
+  (forall e, In e es -> own (e_path e) = None -> In e (nth (List.length gs) layers [])) /\
+  (forall i e, In e (nth i layers []) -> nondir e = true -> In e es /\ layer_index gs own (e_path e) = Some i) /\
+  (forall main l, exists pre, main = pre ++ align main l /\ List.length pre <= List.length l).
+Proof.
+  intros gs own es layers Hnd H. destruct (split_each_file_once_spec gs own es layers Hnd H) as [Hl [Hf Ha]].
+  split; [| split].
+  - intros e He Ho. apply Ha; auto. unfold layer_index. rewrite Ho. reflexivity.
+  - intros i e He Hn.
+    assert (Hi : i < List.length layers).
+    { destruct (Nat.lt_ge_cases i (List.length layers)) as [L | L]; auto. rewrite nth_overflow in He by exact L. contradiction. }
+    assert (G : In e (filter nondir (nth i layers []))) by (apply filter_In; auto).
+    rewrite (Hf i Hi) in G. apply filter_In in G. destruct G as [G1 G2]. split; auto.
+    apply andb_true_iff in G2. destruct G2 as [_ G2].
+    destruct (layer_index gs own (e_path e)) as [k|]; simpl in G2; [| discriminate].
+    apply Nat.eqb_eq in G2. subst. reflexivity.
+  - apply align_suffix.
+Qed.
+Print Assumptions c10_flatten_partial.
+
+Example c10_split_example :
+  let d p := {| e_path := p; e_kind := KDir; e_mode := 493; e_uid := 0; e_gid := 0; e_uname := None; e_gname := None;
+                e_link := ""; e_devmaj := 0; e_devmin := 0; e_xattrs := []; e_mtime := 5; e_mnsec := 0; e_cid := 0; e_size := 0 |} in
+  let f p t := {| e_path := p; e_kind := KReg; e_mode := 420; e_uid := 0; e_gid := 0; e_uname := None; e_gname := None;
+                e_link := ""; e_devmaj := 0; e_devmin := 0; e_xattrs := []; e_mtime := t; e_mnsec := 0; e_cid := 9; e_size := 1 |} in
+  let own p := if path_eqb p ["usr"; "lib"; "a"] then Some "a" else if path_eqb p ["usr"; "b"] then Some "b" else None in
+  match split_layers [["a"]; ["b"]] own [d ["usr"]; f ["usr"; "b"] 7%Z; d ["usr"; "lib"]; f ["usr"; "lib"; "a"] 8%Z; f ["usr"; "z"] 9%Z] with
+  | Ok layers => map (map e_path) layers =
+      [ [["usr"]; ["usr"; "lib"]; ["usr"; "lib"; "a"]];
+        [["usr"]; ["usr"; "b"]];
+        [["usr"]; ["usr"; "lib"]; ["usr"; "z"]] ] /\
+      layers_tags [["a"]; ["b"]] own [d ["usr"]; f ["usr"; "b"] 7%Z; d ["usr"; "lib"]; f ["usr"; "lib"; "a"] 8%Z; f ["usr"; "z"] 9%Z] layers = []
+  | _ => False
+  end.
+Proof. vm_compute. split; reflexivity. Qed.
